@@ -422,7 +422,8 @@ func (m *Model) resolveAnchors() error {
 				if isPtrToNamed(arg.Type(), "database/sql", "Tx") {
 					continue
 				}
-				v := stripConv(arg)
+				v, _ := m.resolve(arg, topFrame(a.AllocClos))
+				v = stripConv(v)
 				if call, ok := v.(*ssa.Call); ok {
 					if f := call.Common().StaticCallee(); f != nil {
 						a.ClockNow = f
